@@ -1,53 +1,55 @@
 (* C20: concurrent readers of a shared store see sequential results.
 
    Model (Model/Conc.v): the interior-mutable state reachable through &AnnotationStore - the
-   serialisation mode of the store's Config clone family and the changed flag of every member -
-   as shared cells; thread programs with one command per access to a cell (the yield sites of
-   the hooks in /repo); interleaving semantics over any number of threads and any schedule.
+   changed flag of every member, shared by all threads, and the serialisation mode, which since
+   fix 5f67dd0 is confined to the thread (sh = false) and before was one cell shared by the
+   store's Config clone family (sh = true) - with one command per access (the yield sites of the
+   hooks in /repo); interleaving semantics over any number of threads and ANY schedule.
 
-   C20_readers_independent   no thread program can write the mode cell -> under every schedule
-                             every thread finishes with what it finishes with alone
-   C20_guarded               any programs: a thread that is straight-line, or whose fellow threads
-                             cannot write the mode cell, emits exactly the static reading of its
-                             program (and only prefixes of it on the way), whatever the schedule
-   C20_solo                  alone, a thread emits the static reading of its program
+   The property (code as it is now, sh = false):
+   C20_independent           any thread programs: under every schedule a thread emits exactly the
+                             static reading of its program (prefixes of it on the way); what it
+                             writes to stand-off files is member content
+   C20_alone_or_not          ... hence finishes with exactly what it finishes with alone
    C20_entry_points          static reading of every serialisation entry point = the documented
                              result (Spec/ConcSpec.v)
-   C20_scenario              entry points, any schedule, outside Known_C20_mode_write: result =
-                             specified solo result (the full statement of the property, guarded)
+   C20_scenario              any store, any calls, any schedule: every thread obtains the specified
+                             solo result and never writes anything but content to a stand-off file
    C20_scenario_solo         the specified result is what each entry point yields alone
-   C20_coarse                the granularity of the deterministic scheduler of the harness (switch
-                             only at yield sites) is a special case of the schedules quantified over
-   C20_refuted ...           inside the class the property fails: witnesses (defect 42) *)
+   C20_coarse, C20_scenario_coarse
+                             the switch-only-at-yield-sites granularity of the scheduler of the
+                             harness is a special case of the schedules quantified over
+   The defect that was repaired (shared cell, sh = true; defect 42 of DESIGN section 6):
+   C20_shared_readers_independent   no thread can write the mode cell -> every thread = solo
+   C20_shared_guarded               a thread that is straight-line, or whose fellow threads cannot
+                                    write the mode cell, obtains its solo result
+   C20_shared_refuted ...           otherwise not: four computed witnesses; the same schedules are
+                                    harmless with the mode confined to the thread *)
 From Coq Require Import List Arith Bool.
 Import ListNotations.
 From Stam Require Import Model.Conc Spec.ConcSpec Proofs.Conc.
 
-Theorem C20_readers_independent : forall c0 st,
-  le_flags (flags st) c0 ->
-  (forall j tj, nth_error (thr st) j = Some tj -> nw c0 (stk tj) = true) ->
-  forall i t o m1, nth_error (thr st) i = Some t -> dead t = false -> out t = [] ->
-  sem (md st) (stk t) = Some (o, m1) ->
-  forall sched n t1 t2,
-    nth_error (thr (run sched st)) i = Some t1 -> finished t1 = true ->
-    nth_error (thr (run (repeat i n) st)) i = Some t2 -> finished t2 = true ->
-    out t1 = out t2 /\ dead t1 = false.
-Proof. exact readers_independent. Qed.
-
-Theorem C20_guarded : forall c0 i sched st t o m1,
-  le_flags (flags st) c0 ->
-  nth_error (thr st) i = Some t -> dead t = false -> out t = [] ->
-  sem (md st) (stk t) = Some (o, m1) ->
-  Known_C20_mode_write c0 (thr st) i = false ->
-  exists t', nth_error (thr (run sched st)) i = Some t' /\ dead t' = false
+Theorem C20_independent : forall i sched st t o m1,
+  nth_error (thr st) i = Some t -> dead t = false -> out t = [] -> fout t = [] ->
+  sem (tmd t) (stk t) = Some (o, m1) ->
+  exists t', nth_error (thr (run false sched st)) i = Some t' /\ dead t' = false /\ files_ok t'
              /\ (finished t' = true -> out t' = o)
              /\ exists rest, out t' ++ rest = o.
-Proof. exact guarded_generic. Qed.
+Proof. exact independent_generic. Qed.
 
-Theorem C20_solo : forall i n st t o m1,
-  nth_error (thr st) i = Some t -> dead t = false -> out t = [] ->
-  sem (md st) (stk t) = Some (o, m1) ->
-  exists t', nth_error (thr (run (repeat i n) st)) i = Some t' /\ dead t' = false
+Theorem C20_alone_or_not : forall i st t o m1,
+  nth_error (thr st) i = Some t -> dead t = false -> out t = [] -> fout t = [] ->
+  sem (tmd t) (stk t) = Some (o, m1) ->
+  forall sched n t1 t2,
+    nth_error (thr (run false sched st)) i = Some t1 -> finished t1 = true ->
+    nth_error (thr (run false (repeat i n) st)) i = Some t2 -> finished t2 = true ->
+    out t1 = out t2 /\ dead t1 = false.
+Proof. exact alone_or_not. Qed.
+
+Theorem C20_solo : forall sh i n st t o m1,
+  nth_error (thr st) i = Some t -> dead t = false -> out t = [] -> fout t = [] ->
+  sem (cur_mode sh (md st) t) (stk t) = Some (o, m1) ->
+  exists t', nth_error (thr (run sh (repeat i n) st)) i = Some t' /\ dead t' = false /\ files_ok t'
              /\ (finished t' = true -> out t' = o)
              /\ exists rest, out t' ++ rest = o.
 Proof. exact solo_generic. Qed.
@@ -58,63 +60,90 @@ Proof. exact sem_prog. Qed.
 
 Theorem C20_scenario : forall sc sched i o,
   nth_error (ops sc) i = Some o ->
-  Known_C20_mode_write (changed0 sc) (thr (init sc)) i = false ->
-  exists t', nth_error (thr (run sched (init sc))) i = Some t' /\ dead t' = false
+  exists t', nth_error (thr (run false sched (init sc))) i = Some t' /\ dead t' = false /\ files_ok t'
              /\ (finished t' = true -> out t' = spec_out (members sc) o)
              /\ exists rest, out t' ++ rest = spec_out (members sc) o.
-Proof. exact scenario_guarded. Qed.
+Proof. exact scenario_independent. Qed.
 
-Theorem C20_scenario_solo : forall sc n i o,
+Theorem C20_scenario_solo : forall sh sc n i o,
   nth_error (ops sc) i = Some o ->
-  exists t', nth_error (thr (run (repeat i n) (init sc))) i = Some t' /\ dead t' = false
+  exists t', nth_error (thr (run sh (repeat i n) (init sc))) i = Some t' /\ dead t' = false
              /\ (finished t' = true -> out t' = spec_out (members sc) o).
 Proof. exact scenario_solo. Qed.
 
-Theorem C20_coarse : forall cs st, exists fs, run_coarse cs st = run fs st.
+Theorem C20_coarse : forall sh cs st, exists fs, run_coarse sh cs st = run sh fs st.
 Proof. exact run_coarse_is_run. Qed.
 
 Theorem C20_scenario_coarse : forall sc cs i o t',
   nth_error (ops sc) i = Some o ->
-  Known_C20_mode_write (changed0 sc) (thr (init sc)) i = false ->
-  nth_error (thr (run_coarse cs (init sc))) i = Some t' -> finished t' = true ->
-  out t' = spec_out (members sc) o /\ dead t' = false.
-Proof. exact scenario_guarded_coarse. Qed.
+  nth_error (thr (run_coarse false cs (init sc))) i = Some t' ->
+  files_ok t' /\ dead t' = false /\ (finished t' = true -> out t' = spec_out (members sc) o).
+Proof. exact scenario_independent_coarse. Qed.
 
-(* the class is a real failure, not a loosened check *)
-Theorem C20_refuted :
+(* ---- the shared-cell design ---- *)
+Theorem C20_shared_readers_independent : forall c0 st,
+  le_flags (flags st) c0 ->
+  (forall j tj, nth_error (thr st) j = Some tj -> nw c0 (stk tj) = true) ->
+  forall i t o m1, nth_error (thr st) i = Some t -> dead t = false -> out t = [] -> fout t = [] ->
+  sem (md st) (stk t) = Some (o, m1) ->
+  forall sched n t1 t2,
+    nth_error (thr (run true sched st)) i = Some t1 -> finished t1 = true ->
+    nth_error (thr (run true (repeat i n) st)) i = Some t2 -> finished t2 = true ->
+    out t1 = out t2 /\ dead t1 = false.
+Proof. exact shared_readers_independent. Qed.
+
+Theorem C20_shared_guarded : forall sc sched i o,
+  nth_error (ops sc) i = Some o ->
+  Shared_mode_race (changed0 sc) (thr (init sc)) i = false ->
+  exists t', nth_error (thr (run true sched (init sc))) i = Some t' /\ dead t' = false /\ files_ok t'
+             /\ (finished t' = true -> out t' = spec_out (members sc) o)
+             /\ exists rest, out t' ++ rest = spec_out (members sc) o.
+Proof. exact shared_scenario_guarded. Qed.
+
+Theorem C20_shared_refuted :
   exists sc cs i o t', nth_error (ops sc) i = Some o
-    /\ nth_error (thr (run_coarse cs (init sc))) i = Some t' /\ finished t' = true
+    /\ nth_error (thr (run_coarse true cs (init sc))) i = Some t' /\ finished t' = true
     /\ out t' <> spec_out (members sc) o.
-Proof. exact C20_refuted_generic. Qed.
+Proof. exact shared_refuted_generic. Qed.
 
-Theorem C20_refuted_store_loses_include :
-  result 0 (run_coarse [0; 1; 1; 0] (init witness_AB)) = Some (true, [t_inline 0])
+Theorem C20_shared_refuted_store_loses_include :
+  result 0 (run_coarse true [0; 1; 1; 0] (init witness_AB)) = Some (true, [t_inline 0])
   /\ spec_out (members witness_AB) OpStore = [t_include 0]
-  /\ Known_C20_mode_write (changed0 witness_AB) (thr (init witness_AB)) 0 = true.
-Proof. exact refuted_store_loses_include. Qed.
+  /\ Shared_mode_race (changed0 witness_AB) (thr (init witness_AB)) 0 = true.
+Proof. exact shared_refuted_store_loses_include. Qed.
 
-Theorem C20_refuted_member_gets_include :
-  result 0 (run_coarse [1; 1; 1; 0; 0; 1; 1; 1; 1; 0; 0; 0] (init witness_BA)) = Some (true, [t_include 0])
+Theorem C20_shared_refuted_member_gets_include :
+  result 0 (run_coarse true [1; 1; 1; 0; 0; 1; 1; 1; 1; 0; 0; 0] (init witness_BA)) = Some (true, [t_include 0])
   /\ spec_out (members witness_BA) (OpMemberTrait 0) = [t_inline 0].
-Proof. exact refuted_member_gets_include. Qed.
+Proof. exact shared_refuted_member_gets_include. Qed.
 
-Theorem C20_refuted_two_store_serialisations :
-  result 1 (run_coarse [0; 0; 0; 0; 1; 1; 1] (init witness_SS)) = Some (true, [t_inline 0; t_inline 1])
+Theorem C20_shared_refuted_two_store_serialisations :
+  result 1 (run_coarse true [0; 0; 0; 0; 1; 1; 1] (init witness_SS)) = Some (true, [t_inline 0; t_inline 1])
   /\ spec_out (members witness_SS) OpStore = [t_include 0; t_include 1].
-Proof. exact refuted_two_store_serialisations. Qed.
+Proof. exact shared_refuted_two_store_serialisations. Qed.
 
-Theorem C20_refuted_file_gets_include :
-  In (0, t_include 0) (file_writes 1 (run_coarse [1; 1; 1; 0; 0; 0; 1; 0; 1] (init witness_BA))).
-Proof. exact refuted_file_gets_include. Qed.
+Theorem C20_shared_refuted_file_gets_include :
+  In (0, t_include 0) (file_writes 1 (run_coarse true [1; 1; 1; 0; 0; 0; 1; 0; 1] (init witness_BA))).
+Proof. exact shared_refuted_file_gets_include. Qed.
 
-(* non-vacuity: a scenario outside the class with real sharing - two threads serialise a store
-   with an inline resource, a changed plain-text stand-off resource and an unchanged stand-off
-   dataset while a third one queries; one interleaving, everybody finished with the solo result *)
+Theorem C20_repaired_on_the_witnesses :
+  result 0 (run_coarse false [0; 1; 1; 0; 0] (init witness_AB)) = Some (true, [t_include 0])
+  /\ result 0 (run_coarse false [1; 1; 1; 0; 0; 1; 1; 1; 1; 0; 0; 0] (init witness_BA)) = Some (true, [t_inline 0])
+  /\ result 1 (run_coarse false [0; 0; 0; 0; 0; 0; 0; 0; 1; 1; 1; 1; 1] (init witness_SS)) = Some (true, [t_include 0; t_include 1])
+  /\ file_writes 1 (run_coarse false [1; 1; 1; 0; 0; 0; 1; 0; 1; 1; 1; 1] (init witness_BA)) = [(0, t_inline 0)].
+Proof. exact local_witnesses_fine. Qed.
+
+(* non-vacuity: real sharing - two threads serialise a store with an inline resource, a changed
+   plain-text stand-off resource and a changed stand-off dataset (both flush, both switch their
+   mode) while a third one asks for the content of the dataset; one interleaving, everybody
+   finished with the solo result, only content written to the files *)
 Example C20_nonvacuous :
-  let sc := mkScen [NoFile; Txt; Json] [false; true; false] [OpStore; OpStore; OpPure] in
-  forallb (fun i => negb (Known_C20_mode_write (changed0 sc) (thr (init sc)) i)) [0; 1; 2] = true
-  /\ map (fun i => result i (run_coarse [0; 1; 0; 1; 2; 1; 0; 0; 1; 1; 0; 0; 1; 0; 1] (init sc))) [0; 1; 2]
+  let sc := mkScen [NoFile; Txt; Json] [false; true; true] [OpStore; OpStore; OpMemberTrait 2] in
+  let st := run_coarse false [0; 1; 0; 1; 2; 1; 0; 0; 2; 1; 1; 0; 0; 1; 0; 1; 2; 2; 0; 1; 0; 1; 0; 1] (init sc) in
+  map (fun i => result i st) [0; 1; 2]
      = [Some (true, [t_inline 0; t_include 1; t_include 2]);
         Some (true, [t_inline 0; t_include 1; t_include 2]);
-        Some (true, [])].
-Proof. vm_compute. split; reflexivity. Qed.
+        Some (true, [t_inline 2])]
+  /\ file_writes 0 st = [(1, t_inline 1); (2, t_inline 2)]
+  /\ file_writes 1 st = [(1, t_inline 1); (2, t_inline 2)].
+Proof. vm_compute. repeat split. Qed.
